@@ -2502,3 +2502,32 @@ def c05_noskip(ctx):
                     out.fail(key, '%s calls skip_to_end(): outside the find tasks this discards input that a must-visit terminal (collect, count, reduce, for_each) still has to process' % key_of(b), b.where(t.get('line')))
     out.floor('skip_to_end_sites', n, 3 if not ctx.fixture else 0)
     return out
+
+
+# ======================================================================================= C01-FRESH
+@rule('C01-FRESH', 'positions delivered by the source start at 0: no source can be handed over half-consumed')
+def c01_fresh(ctx):
+    """Kernels use the positions a concurrent iterator reports (Next.idx / NextChunk.begin_idx) as output positions and as
+    reported indices, and size their buffers with try_get_len() (the REMAINING length).  Both agree only for an iterator that
+    has not been advanced.  Collections, slices, ranges and std iterators are converted by the library itself (fresh); an
+    IntoPar impl whose receiver is already a concurrent iterator passes on whatever state the caller left it in."""
+    out = RuleOut('C01-FRESH')
+    F = ctx.facts
+    S = ctx.slots
+    n = 0
+    for sn in sorted(S.sources):
+        b = F.bodies[sn]
+        if not b.arg_locals():
+            continue
+        n += 1
+        ty = b.locals[b.arg_locals()[0]]['ty']
+        ready_made = ty.startswith('orx_concurrent_iter::') and not ty.startswith('orx_concurrent_iter::IntoConcurrentIter')
+        key = 'C01-FRESH/' + key_of(b)
+        out.inst(key, not ready_made, ty[:80], sample={'source': key_of(b), 'receiver': ty[:100]})
+        if ready_made:
+            out.fail(key, '%s accepts a ready-made concurrent iterator (%s), which the caller may already have advanced: the ordered collect then writes at the '
+                          'iterator\'s absolute positions into a buffer sized for the remaining elements (panic "Out of capacity" / "surely contains gaps", with a '
+                          'destructor run over never-written slots while unwinding) and *_with_index reports absolute positions in parallel but remaining-relative '
+                          'ones with num_threads(1)' % (key_of(b), ty[:60]), b.where())
+    out.floor('sources', n, 8 if not ctx.fixture else 0)
+    return out
